@@ -37,6 +37,15 @@ func (w *World) nextDefault() (Event, bool) {
 	if w.PC < len(w.Sc.Script) {
 		return scriptMarker, true
 	}
+	// the script has ended: stalled storage threads resume
+	for _, n := range w.Nodes {
+		if n.AppendPaused {
+			return Event{Kind: EvPauseAppend, Node: uint8(n.ID), Arg: 0}, true
+		}
+		if n.ApplyPaused {
+			return Event{Kind: EvPauseApply, Node: uint8(n.ID), Arg: 0}, true
+		}
+	}
 	return Event{}, false
 }
 
@@ -131,8 +140,15 @@ func (d *ddfs) run(w *World, path []Event, devs int) {
 			break
 		}
 		if step > d.maxLen {
+			if d.onEnd != nil {
+				// convergence mode: without ticks and faults the system must fall silent
+				d.found([]*Violation{{"C15", "falls-silent", fmt.Sprintf("the default (fault-free, tick-free) schedule is still exchanging messages after %d steps: %s", d.maxLen, w.outcome())}}, path)
+				break
+			}
 			d.res.Exhaustive = false
-			d.res.Caps = append(d.res.Caps, fmt.Sprintf("execution longer than %d steps cut", d.maxLen))
+			if len(d.res.Caps) < 5 {
+				d.res.Caps = append(d.res.Caps, fmt.Sprintf("execution longer than %d steps cut", d.maxLen))
+			}
 			break
 		}
 		def, ok := w.nextDefault()
@@ -237,7 +253,7 @@ func DevDFS(sc *Scenario, mf MonitorFactory, lim Limits, onEnd func(w *World) []
 	}
 	completed := -1
 	for b := 0; b <= sc.DevBound; b++ {
-		d := &ddfs{sc: sc, mf: mf, lim: lim, res: res, visited: map[[16]byte]int8{}, bound: b, onEnd: onEnd, maxLen: 3000}
+		d := &ddfs{sc: sc, mf: mf, lim: lim, res: res, visited: map[[16]byte]int8{}, bound: b, onEnd: onEnd, maxLen: 1500}
 		w0, _ := replayChoices(sc, mf, nil)
 		d.run(w0, nil, 0)
 		if d.stop {
